@@ -71,12 +71,24 @@ func (g *gate) point() {
 	}
 }
 
+var notReached atomic.Int64
+
+// reachWait: how long the controller waits for a goroutine to arrive at a
+// gate; shortened once gates keep being missed (hook points moved or removed).
+func reachWait() time.Duration {
+	if notReached.Load() >= 3 {
+		return 100 * time.Millisecond
+	}
+	return 3 * time.Second
+}
+
 // waitReached: harness-side wait for the held goroutine (never a verdict).
 func (g *gate) waitReached() bool {
 	select {
 	case <-g.reached:
 		return true
-	case <-time.After(3 * time.Second):
+	case <-time.After(reachWait()):
+		notReached.Add(1)
 		g.hold.Store(false)
 		// it may have slipped in just now
 		select {
@@ -433,8 +445,8 @@ func forcedTrial(r *vlib.Run, trial int, rng *rand.Rand) {
 	}
 
 	for _, s := range steps {
-		if abort {
-			break
+		if abort || owed < 0 {
+			break // owed < 0: more delivered than accepted; the oracle will say so
 		}
 		switch s.Op {
 		case "ins":
